@@ -325,6 +325,64 @@ def multi_cases(rng, n):
     return cases
 
 
+# ------------------------------------------------------------------ source tie (Gen/GenFormatParse.v)
+# obligations that speak about the functions translated from format.rs by translator/gens/formatparse.py
+SRC_OBLIGATIONS = ("translator.GenFormatParse", "C12.C12_model_is_translated_source", "C12.C12_source_")
+SRC_VALS = {"d": 7, "x": 254, "o": 9, "s": "v", "c": 65}
+
+
+def source_broken(run):
+    return [n for n, ok, _ in run.obligations if not ok and n.startswith(SRC_OBLIGATIONS)]
+
+
+def source_cases(rng, sample=None):
+    """Format strings built from the grammar  % [(key)] flags width precision length-modifier letter  — the parts in
+    the right order and with two neighbouring parts swapped, single / doubled length modifiers, decorated `%%` —
+    x value arrays holding exactly / one fewer / one more than the needed number of DISTINCT values (a `*` that
+    does not advance the value index, or a `%%` that takes a value, shows in the text or in the count error), and an
+    object for keyed codes.  No float conversions (judged elsewhere)."""
+    cases = []
+    for key in (None, "a"):
+        for flags in ("", "-", "0", "#", "+ "):
+            for w in (None, 3, "*"):
+                for p in (None, 2, "*"):
+                    for lm in ("", "l", "ll", "hl"):
+                        for cv in "dxsc%":
+                            ks = "" if key is None else "(" + key + ")"
+                            ws = "" if w is None else str(w)
+                            ps = "" if p is None else "." + str(p)
+                            orders = [[ks, flags, ws, ps, lm]]
+                            if lm in ("", "l"):
+                                if flags and ws:
+                                    orders.append([ks, ws, flags, ps, lm])
+                                if ws and ps:
+                                    orders.append([ks, flags, ps, ws, lm])
+                                if ps and lm:
+                                    orders.append([ks, flags, ws, lm, ps])
+                                if ks and flags:
+                                    orders.append([flags, ks, ws, ps, lm])
+                            vals = ([V(6)] if w == "*" else []) + ([V(2)] if p == "*" else [])
+                            if cv != "%":
+                                vals.append(V(SRC_VALS[cv]))
+                            for parts in orders:
+                                fmt = "<%" + "".join(parts) + cv + ">"
+                                cases.append(Case(fmt, ("arr", vals), "source-tie"))
+                                if vals:
+                                    cases.append(Case(fmt, ("arr", vals[:-1]), "source-tie"))
+                                cases.append(Case(fmt, ("arr", vals + [V(11)]), "source-tie"))
+                                if key is not None:
+                                    cases.append(Case(fmt, V({"a": SRC_VALS.get(cv, 1), "b": 0}), "source-tie"))
+    # two codes in one string: the second code must see the values the first one left
+    for a, b in (("%*d", "%s"), ("%.*d", "%s"), ("%*.*d", "%d"), ("%%", "%d"), ("%d", "%%"), ("%5%", "%*d"),
+                 ("%s", "%.*x"), ("%%", "%%"), ("%*%", "%d"), ("%.*%", "%d")):
+        for n in range(0, 6):
+            cases.append(Case(a + "|" + b, ("arr", [V(x) for x in (4, 3, 9, 8, 1)][:n]), "source-tie"))
+    if sample is not None:
+        rng.shuffle(cases)
+        cases = cases[:sample]
+    return cases
+
+
 WITNESS = {  # one reproducing input per known finding: must keep failing, else the finding is stale
     K_SAT: Case("%d", V(1e30), "witness", code=("", None, None, "d", V(1e30))),
     K_FPREC: Case("%.400f", V(1), "witness"),
@@ -766,6 +824,7 @@ def generate(run, thorough):
     cases += malformed_cases(rng)
     cases += object_cases(rng)
     cases += multi_cases(rng, 6000 if thorough else 400)
+    cases += source_cases(rng.fork("source-tie"), None if thorough else 600)
     return cases
 
 
@@ -797,6 +856,16 @@ def finish_obligations(run):
 
 
 def search(run, binary):
+    src = source_broken(run)
+    if src:
+        # the functions translated from format.rs no longer equal the hand model (or can no longer be translated):
+        # format strings built from the grammar x value arrays with exact / short / long counts first
+        run.log(f"search: source-tie obligation(s) broke ({', '.join(src)[:200]}): grammar-built format strings x "
+                "value arrays")
+        f, _ = correspond(run, binary, source_cases(run.rng.fork("source-search")), label="search(source tie): ")
+        f = [x for x in f if not x.get("known")]
+        if f:
+            return f
     run.log("search: the full 12000-code product on 6 arguments + 2000 multi-code strings")
     rng = run.rng.fork("search")
     few = [V(x) for x in (0, 1, -255, 2.5, "é", [1])]
@@ -825,10 +894,16 @@ RULE = ("cases = (format string, right-hand value) evaluated as `fmt % v` / std.
         "x 15 letters, each on 22 arguments (integers, fractions, negatives, 0, 2^53, 1e30, 1e-5, strings incl. non-ASCII "
         "and empty, array, object, null, true); every prefix of 10 full codes; unknown letters; u16-overflowing widths; "
         "repeated length modifiers; object mode incl. dotted / missing / empty keys; random 1-3 code strings with "
-        "too few / too many / rotated values.  distinct = distinct Jsonnet expression; non-trivial = the format "
+        "too few / too many / rotated values; a seeded 600 (thorough and the targeted search: all ~15000) of the "
+        "source-tie strings: [key] flags width precision length-modifier letter in the right order and with two "
+        "neighbouring parts swapped, doubled length modifiers, decorated %%, two-code strings, each with exactly / one "
+        "fewer / one more distinct values and an object.  distinct = distinct Jsonnet expression; non-trivial = the format "
         "string contains a code.  %e/%f/%g are judged only where binary64 cannot flip a digit (see module doc).")
 TRUSTED = ["Coq 8.16.1 kernel incl. vm_compute (no native_compute); no axioms (all C12 theorems closed)",
            "translator/gens/format.py (tables, radixes, prefixes, default precisions read from format.rs)",
+           "translator/gens/formatparse.py (statement-by-statement translation of the format.rs parser functions and "
+           "of format_arr / format_obj into Gen/GenFormatParse.v; its reading of the cursor idiom — an index only "
+           "advanced by `+= 1` is the suffix — and of the value slice is trusted; fail closed)",
            "correspondence: jrharness eval, vlib generators, Coq term printer/parser, Python Fraction arithmetic in "
            "the float judgeability test",
            "SPEC = my reading of Python's conversion-specifier grammar and of std.jsonnet's render_int / render_hex / "
